@@ -32,6 +32,7 @@ func main() {
 	timeout := fs.Int("timeout", 0, "per-solver timeout seconds (default by tier)")
 	verifDir := fs.String("verif", "/verif", "verification directory")
 	only := fs.String("only", "", "substring filter on obligation names (debug)")
+	replayDir := fs.String("replaydir", "", "directory for replay files (default <verif>/replay)")
 	fs.Parse(os.Args[2:])
 	args := fs.Args()
 	switch cmd {
@@ -147,6 +148,7 @@ func main() {
 		if len(args) < 1 {
 			usage()
 		}
+		replayDirOverride = *replayDir
 		os.Exit(runCheck(*repo, *verifDir, args[0], *tier, *evidence, *timeout, *verbose))
 	default:
 		usage()
@@ -176,3 +178,5 @@ func solverCfg(tier string, timeout int) *SolverCfg {
 	}
 	return cfg
 }
+
+var replayDirOverride string
